@@ -610,16 +610,26 @@ def mutated(draw, ann, kinds=None, start=0):
         val = def_value_for(draw, d, pl) if d["takes"] else None
         ref = d["name"] + (f"/{val}" if val is not None else "")
         content = substitute(d["content"], val) if val is not None else copy.deepcopy(d["content"])
-        how = draw(st.sampled_from(["extra", "removed", "changed"]))
+        how = draw(st.sampled_from(["extra", "removed", "changed", "second_group", "sibling_tag", "content_twice"]))
         flat = [c for c in content if not is_group(c)]
-        if how == "removed" and len(content) > 1:
+        members = None
+        if how in ("second_group", "sibling_tag", "content_twice"):
+            # the true content, plus something else beside it inside the Def-expand group
+            extra = [n for n in pl.plain if n.long not in used]
+            t = make_tag(pick(extra).short, "bad", kind="bad")
+            other = {"second_group": make_group([t]), "sibling_tag": t,
+                     "content_twice": make_group(copy.deepcopy(content))}[how]
+            members = [make_tag(f"Def-expand/{ref}", "bad", kind="bad"), make_group(content)]
+            members.insert(draw(st.integers(0, 2)), other)
+        elif how == "removed" and len(content) > 1:
             content.pop(draw(st.integers(0, len(content) - 1)))
         elif how == "changed" and val is not None:
             content = substitute(d["content"], val + "9")
         else:
             extra = [n for n in pl.plain if n.long not in used]
             content.insert(draw(st.integers(0, len(content))), make_tag(pick(extra).short, "bad", kind="bad"))
-        grp = make_group([make_tag(f"Def-expand/{ref}", "bad", kind="bad"), make_group(content)], sealed=True)
+        grp = make_group(members or [make_tag(f"Def-expand/{ref}", "bad", kind="bad"), make_group(content)],
+                         sealed=True)
         _insert_somewhere(draw, tree, grp)
         expect = "DEF_EXPAND_INVALID"
     elif kind == "duplicate_tag":
